@@ -84,6 +84,7 @@ func runName(e ast.Expr) string {
 }
 
 var wantMismatch []string
+var wrapperMismatch []string
 
 func expr(e ast.Expr, ind string) string {
 	u, ok := e.(*ast.UnaryExpr)
@@ -302,7 +303,11 @@ func main() {
 				die("wrapper %s: unexpected shape", fd.Name.Name)
 			}
 			if sel, ok := call.Fun.(*ast.SelectorExpr); !ok || sel.Sel.Name != "on"+a.name {
-				die("wrapper %s does not call on%s", fd.Name.Name, a.name)
+				callee := "?"
+				if ok {
+					callee = sel.Sel.Name
+				}
+				wrapperMismatch = append(wrapperMismatch, fd.Name.Name+" calls "+callee)
 			}
 			for _, arg := range call.Args {
 				ix, ok := arg.(*ast.IndexExpr)
@@ -314,6 +319,8 @@ func main() {
 			a.haveCall = true
 		}
 	}
+	fmt.Println("(* callon<name> wrappers that do not call on<name> *)")
+	fmt.Printf("Definition go_wrapper_mismatches : list string := %s.\n", strList(wrapperMismatch))
 	fmt.Println("(* name, parameters of on<name>, labels passed by callon<name>, token stream of the body *)")
 	fmt.Println("Definition go_actions : list (string * list string * list string * list string) := [")
 	for i, a := range acts {
